@@ -12,7 +12,8 @@ COQ_REQUIRES = ["Hio.Model.MemoTx"]
 COQ_CHECK = "MemoTx.check_case"
 COQ_CASE_TYPE = "MemoTx.case"
 COQ_BRANCHES = ("MemoTx.case_branches", "MemoTx.n_branches")
-RULE = ("op sequences (gramit / serviceTxGrams / serviceTxGramsOnce / close+open) on the real UDP and UXD PeerMemoer "
+RULE = ("op sequences (gramit / serviceTxGrams / serviceTxGramsOnce / opened flag / real close() and reopen()) on the real UDP "
+        "and UXD PeerMemoer and on a Memoer-level class that overrides only send "
         "over a fake socket whose sendto follows a script of kernel results: accept n bytes (0..len and beyond), accept "
         "all, or raise OSError with one of 19 errnos (4 would-block, 10 unreachable, 5 unexpected); grams are queued as "
         "bytes, bytearray or memoryview objects and the SAME object is often queued several times to different "
@@ -82,6 +83,13 @@ def directed():
          "script": [["err", e] for e in WOULD_BLOCK] + [["acc", 1]] * 3},
         # nothing queued
         {"transport": "udp", "ops": [["svc"], ["once"]], "script": []},
+        # close() / reopen() in the middle of backpressure: the parked gram / remainder survives and is sent after reopen
+        *[{"transport": t, "ops": [_g(A, 1), _g(B, 2), ["svc"], ["close"], ["svc"], ["once"], ["reopen"], ["svc"], ["svc"]], "script": [sc]}
+          for t in ("memoer", "udp", "uxd") for sc in (["acc", 3], ["acc", 0])],
+        *[{"transport": t, "ops": [_g(A, 1), ["once"], ["reopen"], _g(C, 2), ["once"], ["reopen"], ["once"], ["once"]], "script": [["acc", 2], ["acc", 1]]}
+          for t in ("memoer", "uxd")],
+        {"transport": "memoer", "own": {"txbs0": [C.encode().hex(), 3], "append": True},
+         "ops": [["reopen"], _g(A, 1), ["svc"], ["close"], ["reopen"], ["svc"]], "script": [["acc", 1]]},
         # the application owns the queue: an EMPTY deque handed to the constructor and filled afterwards
         {"transport": "udp", "own": {"append": True}, "ops": [_g(A, 1), _g(B, 2), ["svc"], _g(C, 1), ["once"], ["svc"]], "script": [["acc", 2]]},
         {"transport": "uxd", "own": {"append": True}, "ops": [_g(A, 1), _g(B, 2), _g(C, 3), _g(A, 2)] + [["svc"]] * 3, "script": [["acc", 0]]},
@@ -143,8 +151,12 @@ def generate(rng, tier):
                 ops.append(["svc"])
             elif r < 0.95:
                 ops.append(["once"])
-            else:
+            elif r < 0.975:
                 ops.append(["open", False]); ops.append(rng.choice([["svc"], ["once"]])); ops.append(["open", True])
+            else:
+                ops.append(rng.choice([["reopen"], ["close"]]))
+                if ops[-1] == ["close"]:
+                    ops.append(rng.choice([["svc"], ["once"]])); ops.append(["reopen"])
             if len(ops) > 30:
                 break
         fs = {0: 0, 1: 1, 2: 1.0}[fault]
@@ -153,7 +165,12 @@ def generate(rng, tier):
             script = [x for x in script if not (x[0] == "err" and x[1] in OTHER)]
         # drain so that completion is observable: the script is finite, afterwards everything is accepted
         ops += [["svc"]] * (len(script) + 1) if rng.random() < 0.7 else []
-        c = {"transport": rng.choice(["udp", "uxd"]), "ops": ops, "script": script}
+        c = {"transport": rng.choice(["udp", "uxd", "memoer"]), "ops": ops, "script": script}
+        if c["transport"] == "memoer":        # at Memoer level a would-block is a send that returns 0
+            c["script"] = [["acc", 0] if (x[0] == "err" and x[1] in WOULD_BLOCK) else x for x in script]
+        if rng.random() < 0.25:               # close()/reopen() somewhere inside the history
+            k = rng.randrange(len(ops) + 1)
+            ops[k:k] = rng.choice([[["reopen"]], [["close"], rng.choice([["svc"], ["once"]]), ["reopen"]]])
         if rng.random() < 0.3:      # application-owned queue objects handed to the constructor
             c["own"] = {"append": rng.random() < 0.6}
             if rng.random() < 0.5:
@@ -186,7 +203,7 @@ class _FakeSock:
 
 
 def _dst(transport, d):
-    return ("10.0.0.%d" % d, 5000 + d) if transport == "udp" else "/var/tmp/nowhere/d%d" % d
+    return ("10.0.0.%d" % d, 5000 + d) if transport == "udp" else "/var/tmp/nowhere/d%d" % d   # memoer: a path string too
 
 
 def _undst(dst):
@@ -196,6 +213,20 @@ def _undst(dst):
 
 
 def _make(transport, script, **kwa):
+    if transport == "memoer":
+        # Memoer-level class: overrides only send (the documented way to attach a transport); close / reopen / open are
+        # Memoer's own.  The scripted "socket" is reused as the result source.
+        from hio.core.memo.memoing import Memoer
+        sock = _FakeSock(script)
+
+        class ScriptedMemoer(Memoer):
+            def send(self, gram, dst, *, echoic=False):
+                return sock.sendto(gram, dst)
+
+        m = ScriptedMemoer(name="c21", **kwa)
+        m.ls = sock
+        m.opened = True
+        return m
     if transport == "udp":
         from hio.core.udp.peermemoing import PeerMemoer
         m = PeerMemoer(name="c21", **kwa)
@@ -221,10 +252,11 @@ def run_impl(case):
         if own.get("txbs0"):
             kwa["txbs"] = (bytearray(bytes.fromhex(own["txbs0"][0])), _dst(t, own["txbs0"][1]))
     m = _make(t, case["script"], **kwa)
+    sock = m.ls
     excs, left = [], []
     objs = {}              # application objects: number -> (object, original content)
     for op in case["ops"]:
-        left.append(len(m.ls.script))
+        left.append(len(sock.script))
         try:
             if op[0] == "gram":
                 data = bytes.fromhex(op[1])
@@ -243,11 +275,21 @@ def run_impl(case):
                 m.serviceTxGrams()
             elif op[0] == "once":
                 m.serviceTxGramsOnce()
+            elif op[0] == "close":
+                m.close()                                  # the class's real close()
+            elif op[0] == "reopen":
+                if t == "memoer":
+                    m.reopen()                             # Memoer.reopen: close() then open()
+                else:
+                    m.close()                              # Peer.close; a real reopen would bind a socket, so the
+                    m.ls, m.opened = sock, True            # scripted socket is attached again instead
             else:
                 m.opened = bool(op[1])
             excs.append(None)
         except Exception as ex:
             excs.append(exn_kind(ex))
+    if m.ls is None:
+        m.ls = sock
     log = [[_undst(d), h, r] for d, h, r in m.ls.log]
     before = {"txgs": [[bytes(g).hex(), _undst(d)] for g, d in m.txgs], "txbs": [bytes(m.txbs[0]).hex(), _undst(m.txbs[1])]}
     # drain phase (after everything that is compared with the model has been recorded): the transport stops
@@ -388,7 +430,7 @@ def distribution(cases, obs):
                 kinds["partial"] += 1
             else:
                 kinds["full"] += 1
-    return {"send_results": kinds, "transports": {t: sum(1 for c in cases if c.get("transport") == t) for t in ("udp", "uxd")}}
+    return {"send_results": kinds, "transports": {t: sum(1 for c in cases if c.get("transport") == t) for t in ("udp", "uxd", "memoer")}}
 
 
 # --------------------------------------------------------------------------- Gallina
@@ -400,6 +442,10 @@ def _op(o):
         return "MemoTx.Service"
     if o[0] == "once":
         return "MemoTx.ServiceOnce"
+    if o[0] == "close":
+        return "(MemoTx.SetOpened false)"          # closing keeps queue and remainder
+    if o[0] == "reopen":
+        return "(MemoTx.SetOpened true)"
     return f"(MemoTx.SetOpened {coq_bool(o[1])})"
 
 
